@@ -327,6 +327,45 @@ def import_scenario():
         shutil.rmtree(tmp, ignore_errors=True)
 
 
+def user_class_scenario():
+    """concrete supplement: the references written in the listed models resolve alike when the container and
+    the element rules are user classes (their attributes live outside the objects while the model loads)"""
+    from textx import metamodel_from_str
+    import textx.scoping.providers as P
+
+    def path(o):
+        out = []
+        while hasattr(o, 'name'):
+            out.insert(0, o.name)
+            o = getattr(o, 'parent', None)
+        return '.'.join(out)
+
+    def bases(m):
+        return [(path(o), path(o.base)) for o in named_objects(m) if getattr(o, 'base', None) is not None]
+    problems = []
+    for text in MODELS:
+        ref = bases(load(text)[1])
+
+        class Package:
+            def __init__(self, **kw):
+                for k, v in kw.items():
+                    setattr(self, k, v)
+
+        class Class(Package):
+            pass
+        for classes in ([Package], [Class], [Package, Class]):
+            mm = metamodel_from_str(GRAMMAR, classes=classes)
+            mm.register_scope_providers({'*.*': P.FQN()})
+            try:
+                got = bases(mm.model_from_str(text))
+            except Exception as e:  # noqa
+                got = '%s: %s' % (type(e).__name__, e)
+            if got != ref:
+                problems.append('user classes %s, model %r: extends-references %s, with generic classes %s'
+                                % ([c.__name__ for c in classes], text, got, ref))
+    return problems
+
+
 def main():
     import textx.scoping.providers as P
     import textx.model as M
@@ -372,6 +411,9 @@ def main():
         chk.sample({'model': MODELS[it[0]], 'parts': it[1], 'paths': r['paths'], 'discharged': r['discharged']})
     for pr in import_scenario()[:3]:
         chk.violation(pr, {'import_scenario': True})
+    for pr in user_class_scenario()[:3]:
+        chk.violation(pr, {'user_class_scenario': True})
+    chk.cov['bounds']['user_class_scenario'] = 'the listed models loaded with user classes for Package / Class (concrete)'
     chk.cov['bounds']['import_scenario'] = 'FQNImportURI / FQNGlobalRepo over two files with clashing qualified names (concrete)'
     chk.cov['paths_explored'] = paths
     chk.cov['distinct_nontrivial'] = paths
@@ -385,6 +427,9 @@ def main():
 
 
 def replay(data):
+    if data.get('user_class_scenario'):
+        pr = user_class_scenario()
+        return bool(pr), pr[:3]
     if data.get('import_scenario'):
         pr = import_scenario()
         return bool(pr), pr[:3]
